@@ -36,6 +36,7 @@ class ScenarioWorld:
         self.mgr_base = {}       # mgr -> base index
         self.mgr_defaults = {}   # mgr -> (base_constants, base_points)
         self.app = None
+        self.workdir = "."
 
     # ------------------------------------------------------------ setup
     def setup(self, bptk=None):
@@ -121,6 +122,12 @@ class ScenarioWorld:
     # ------------------------------------------------------------ oracle
     def fresh_for(self, key):
         sh = self.shadow[key]
+        if sh["template"] == "T4":
+            from models import xmile_t4
+            c = sh["constants"].get("constant")
+            p = sh["points"].get("factor")
+            return xmile_t4.fresh_model(sh["start"], sh["stop"], sh["dt"], None if c is None else _num(c), None if p is None else _pts(p),
+                                        workdir=self.workdir)
         b = self.cfg["bases"][sh["base"]]
         consts = dict(b.get("constants") or {})
         consts.update({k: _num(v) for k, v in sh["constants"].items()})
@@ -158,7 +165,7 @@ class ScenarioWorld:
                                                   "runspec": [sh["start"], sh["stop"], sh["dt"]]})
                 return False
             for t in grid:
-                fv = fresh.evaluate_equation(el, t)
+                fv = fresh.evaluate_equation(el, t) if hasattr(fresh, "evaluate_equation") else fresh.equation(el, t)
                 if not T.close(got[el][t], fv, 1e-12):
                     self.res.violate("value-differs", {"scenario": list(key), "element": el, "t": t, "got": got[el][t], "fresh": fv,
                                                        "where": where, "settings": {"constants": sh["constants"], "points": sh["points"],
